@@ -38,7 +38,7 @@ def make(rng, kind):
         cfg["simulation"]["markets"].append("IDX")
         allm.append("IDX")
         p0s.append(idx_p0)
-    wide = kind in ("plimit", "halt", "mixed")
+    wide = kind in ("plimit", "halt", "haltx", "mixed")
     spread = rng.choice([40, 80, 120]) if wide else rng.choice([2, 4, 8])
     script = {"pEmpty": rng.choice([0.0, 0.2]), "pCancel": 0.1, "pMarket": rng.choice([0.0, 0.15]), "maxBatch": rng.choice([1, 2]),
               "maxVol": rng.choice([1, 3]), "spread": spread, "ttls": rng.choice([[0], [0, 2, 5]]), "pOff": rng.choice([0.0, 0.2]),
@@ -52,7 +52,17 @@ def make(rng, kind):
                          "withOrderExecution": rng.random() < 0.75, "withPrint": False, "maxNormalOrders": rng.choice([1, 2, 3, 5]),
                          "maxHighFrequencyOrders": rng.choice([0, 1, 2]), "highFrequencySubmitRate": rng.choice([0.0, 0.5, 1.0])})
     cfg["simulation"]["sessions"] = sessions
-    kinds = {"fshock": ["fshock"], "mistake": ["mistake"], "plimit": ["plimit"], "halt": ["halt"], "index": ["fshock"],
+    if kind == "haltx":
+        # short alternating sessions: a halt started in an execution session is still pending when the next one begins
+        ns = rng.randint(2, 4)
+        first_exec = rng.random() < 0.7
+        sessions = []
+        for s in range(ns):
+            sessions.append({"sessionName": "S%d" % s, "iterationSteps": rng.randint(2, 5), "withOrderPlacement": True,
+                             "withOrderExecution": (s % 2 == 0) == first_exec, "withPrint": False, "maxNormalOrders": rng.choice([2, 3, 5]),
+                             "maxHighFrequencyOrders": rng.choice([0, 1]), "highFrequencySubmitRate": rng.choice([0.0, 1.0])})
+        cfg["simulation"]["sessions"] = sessions
+    kinds = {"fshock": ["fshock"], "mistake": ["mistake"], "plimit": ["plimit"], "halt": ["halt"], "haltx": ["halt"], "index": ["fshock"],
              "mixed": rng.sample(["fshock", "mistake", "plimit", "halt"], rng.randint(2, 3))}[kind]
     n_ev = 0
     shock_budget = {m: 4 for m in names}
@@ -84,7 +94,7 @@ def make(rng, kind):
             elif kd == "halt":
                 tg = rng.sample(names, rng.randint(1, len(names)))
                 cfg[name] = {"class": "TradingHaltRule", "targetMarkets": tg, "triggerChangeRate": rng.choice([0.125, 0.0625, 0.25]),
-                             "haltingTimeLength": rng.choice([1, 2, 3]), "enabled": enabled}
+                             "haltingTimeLength": rng.choice([1, 2, 3] if kind != "haltx" else [3, 4, 6]), "enabled": enabled or kind == "haltx"}
             sess.setdefault("events", []).append(name)
             n_ev += 1
     return cfg
